@@ -8,7 +8,14 @@ antichain (T5, antichain_of_unreachable); an integral feasible flow of cost c de
 together with an antichain of the same size, certifies the minimum (T6, width_certificate). Cyclic T1
 (walkcover_sound, walkcover_hascover): every solution of the kPathCoverCycles LP decodes to k routes of the user's graph
 (source-to-sink walks of the augmented graph once the stripped synthetic endpoints are put back) covering every edge that
-is not ignored and, at coverage fraction 1, containing every subset constraint. For digraphs with cycles an integral feasible
+is not ignored and, at coverage fraction 1, containing every subset constraint. Cyclic T2 (walkcover_complete): k >= 1
+source-to-sink walks covering every edge that is not ignored and every subset constraint, each within the repetition caps
+of the model (|E|*|V| of the augmented graph inside an SCC, 1 outside), extend to a satisfying assignment whose edge
+variables are the traversal counts; the caps cut off nothing (walk_within_caps, walkcover_caps_suffice: every walk has a
+companion through the same edges using no edge more than 2|E|+1 <= |E|*|V| times and no non-SCC edge twice), hence
+walkcover_feasible_iff (LP feasible <=> a cover with k walks exists) and walkcover_search_minimal /
+walkcover_search_finds_minimum (MinPathCoverCycles.solve with a faithful solver, started at an antichain's size, returns
+the minimum over ALL walk covers). For digraphs with cycles an integral feasible
 flow of the instance stDiGraph.get_width builds on the expanded condensation lifts to that many source-to-sink walks
 covering every edge that is not ignored (condensation_flow_to_walkcover), so with an antichain of pairwise unreachable
 edges of the same size the cost is the minimum walk cover (digraph_width_is_min_walk_cover); the two extra hypotheses
@@ -34,6 +41,11 @@ THEOREMS = ["FP.Props.C09.kcover_sound", "FP.Props.C09.kcover_complete", "FP.Pro
             "FP.Props.C09.mincover2",
             "FP.Props.C09.walkcover_sound", "FP.Props.C09.walkcover_hascover",
             "FP.Props.C09.walkcover_optimal_has_cover", "FP.Props.C09.walkcover_sound_literal_false",
+            "FP.Props.C09.walkcover_complete", "FP.Props.C09.walk_within_caps", "FP.Props.C09.walkcover_caps_suffice",
+            "FP.Props.C09.walkcover_within_is_cover", "FP.Props.C09.walkcover_feasible_iff",
+            "FP.Props.C09.walkcover_search_minimal", "FP.Props.C09.walkcover_search_finds_minimum",
+            "FP.Props.C09.walkcover_feasible_iff_within", "FP.Props.C09.walkcover_search_minimal_within",
+            "FP.Props.C09.coverC", "FP.c09c_compress",
             "FP.Props.C09.condensation_flow_to_walkcover", "FP.Props.C09.digraph_width_is_min_walk_cover",
             "FP.Props.C09.cyc1_cover", "FP.cwc_needs_closed", "FP.cwc_needs_no_isolated", "FP.cwc_duplicate_ignore_counts_once",
             "FP.Props.C13.search_sound", "FP.Props.C13.search_complete", "FP.Props.C01.pathcore_sound"]
@@ -50,11 +62,14 @@ RULE = ("K5.dag: random DAGs with at most 8 edges, random ignore sets leaving at
         "plans of props.c13 on MinPathCover / MinPathCoverCycles.")
 MODEL_SCOPE = ("modelled and proven: kPathCover LP (cover_type='edge', subpath constraints at coverage fraction 1 or none, no "
                "length coverage, safety optimisations adding nothing), MinPathCover search loop, antichain lower bound, flow "
-               "decomposition on DAGs, soundness of the kPathCoverCycles LP (every solution decodes to k covering source-to-sink "
-               "walks; subset constraints at coverage fraction 1; safety optimisations off, C05 shows they change nothing), the "
+               "decomposition on DAGs, soundness AND completeness of the kPathCoverCycles LP (every solution decodes to k covering "
+               "source-to-sink walks; every family of k covering walks within the repetition caps |E|*|V| (SCC edges) / 1 (other "
+               "edges) extends to a solution with the traversal counts as edge variables, and every walk cover can be brought "
+               "within these caps without changing k; feasible <=> a cover with k walks exists and the MinPathCoverCycles search "
+               "returns the minimum, for subset constraints at coverage fraction 1, empty walks not allowed; safety optimisations "
+               "off, C05 shows they change nothing), the "
                "min-flow instance of stDiGraph.get_width on the expanded condensation (K1) with the flow-to-walk-cover direction "
-               "(given the SCC labelling and every edge on a source-to-sink walk; edges_to_ignore may repeat entries); modelled (K1/K2) "
-               "without proof: completeness of the kPathCoverCycles LP (walks -> assignment within the repetition caps); not "
+               "(given the SCC labelling and every edge on a source-to-sink walk; edges_to_ignore may repeat entries); not "
                "proven: min-flow / max-antichain strong duality; not modelled: network simplex, the residual search extracting "
                "the antichain (their "
                "outputs are checked per run as certificates), safety optimisations of the k-models, node expansion (C11)")
